@@ -101,6 +101,26 @@ static std::string scenario_write(int ncells) {
     return out;
 }
 
+
+// (e') the same output phase with one cell whose compaction fails (an edge shared by three faces: what an unstable run leaves behind; plus a point no face uses, so that the compaction
+// has to rebuild its edge set), at every place of the list: the caller receives the integrity exception, and the healthy cells have all been compacted when it does
+static std::string scenario_write_with_a_broken_cell(int where) {
+    std::vector<cell_ptr> L; local_mesh_refiner lmr(1e-3, 1e3, true);
+    for (int i = 0; i < 3; i++) { cell_ptr c;
+        if (i == where) { sc::Mesh m = sc::translated(sc::cube12(), 3.0 * i, 0, 0); const unsigned e0 = m.tri[0], e1 = m.tri[1]; std::vector<double> pos = m.pos; std::vector<unsigned> tri = m.tri;
+            for (int k = 0; k < 3; k++) pos.push_back(0.5 * (m.pos[3*e0+k] + m.pos[3*e1+k]) + (k == 1 ? -1.0 : -0.7));   /* apex of a fin on the first edge of the first triangle */ const unsigned apex = (unsigned)(pos.size() / 3 - 1);
+            tri.push_back(e0); tri.push_back(apex); tri.push_back(e1); pos.push_back(3.0 * i + 5); pos.push_back(5); pos.push_back(5);   /* a point no face uses */
+            c = std::make_shared<epithelial_cell>(pos, tri, (unsigned)i, sc::make_cell_type(0, 3)); c->initialize_cell_properties(false); }
+        else { c = sc::make_cell(sc::translated(sc::icosphere(1), 3.0 * i, 0.25 * i, 0), (unsigned)i, sc::make_cell_type(i % 2 ? 2 : 0, 3), true);
+            for (const edge& e0 : c->get_edge_set()) { edge e = e0; bool can = false; try { can = lmr.can_be_merged(e, c); } catch (...) {} if (!can) continue; edge_set es = c->get_edge_set(); try { lmr.merge_edge(e, c, es); } catch (...) {} break; }
+            c->update_all_face_normals_and_areas(); c->area_ = c->compute_area(); c->volume_ = c->compute_volume(); }
+        c->set_local_id(i); L.push_back(c); }
+    std::string dir = sw::scratch_root() + "/c15wb"; std::filesystem::create_directories(dir); std::string out = "returned";
+    try { mesh_writer::write(dir + "/cells.vtk", dir + "/faces.vtk", L); } catch (mesh_integrity_exception& e) { out = "mesh_integrity_exception"; } catch (std::exception& e) { out = std::string("other exception: ") + e.what(); }
+    for (int i = 0; i < 3; i++) if (i != where) out += L[i]->get_nb_of_nodes() == L[i]->node_lst_.size() ? " compacted" : " NOT-COMPACTED";
+    for (auto& c : L) c->clear_data(); return out;
+}
+
 // ------------------------------------------------------------------------------------------------ (f) the contact phase of the build's contact model on interpenetrating cells
 // Interacting cells are outside the bit-identity clause (the order of the atomic additions is free), so the outcome is judged by what every order must respect: the contact forces
 // add up to zero and agree with the single-threaded run to rounding.  The same executions run under ThreadSanitizer: an unsynchronised access to a node shared by two cells is a race
@@ -199,6 +219,7 @@ static void explore(Result& R) {
     // (b') a cell whose division fails, at every place in the list; every execution in its own process, so that an error that ends the process ends one execution
     for (int kind : {2, 0, 5, 1}) for (int where = 0; where < 3; where++) { if (!th && kind != 2 && !(kind == 0 && where == 1)) continue; Sub d{"divide-with-a-cell-that-cannot-divide kind=" + std::to_string(kind) + " place=" + std::to_string(where) + ", isolated processes, T=2", 2, th ? 2 : 1, [kind, where] { return scenario_divide_awkward(kind, where); }, nullptr, hash_list, "@serial"}; d.isolated = functional; subs.push_back(d); }
     }
+    if (CONTACT_MODEL_INDEX == 1) for (int where = 0; where < 3; where++) { Sub w{"mesh_writer::write with a cell whose compaction fails at place " + std::to_string(where) + ", isolated processes, T=2", 2, th ? 2 : 1, [where] { return scenario_write_with_a_broken_cell(where); }, [](const std::string& o) { return o == "mesh_integrity_exception compacted compacted" ? std::string() : ("exception-of-a-parallel-phase-does-not-reach-the-caller-as-thrown-after-all-threads-finished: " + o); }, nullptr, ""}; w.isolated = functional; subs.push_back(w); }
     // (g) (early: cheap, and decisive for the identity clauses)
     if (CONTACT_MODEL_INDEX == 1) {
     for (int mask : {1, 2, 3}) { if (!th && mask == 3) continue; subs.push_back({"solver-iteration-with-division ready=" + std::to_string(mask) + " T=2", 2, th ? 1 : 0, [mask] { return scenario_solver_division(mask); }, nullptr, hash_world, "@serial"}); }
